@@ -3,6 +3,8 @@ package main
 import (
 	"flag"
 	"fmt"
+	"io"
+	"log"
 	"os"
 
 	"verif/lab"
@@ -16,6 +18,8 @@ func main() {
 	bin := flag.String("bin", "", "directory with rdpgw, rdpgw-race, rdpgw-auth")
 	verif := flag.String("verif", "/verif", "verif directory")
 	flag.Parse()
+	// repository packages used in-process log through the standard logger
+	log.SetOutput(io.Discard)
 	l := &lab.Lab{Scratch: *scratch, BinDir: *bin, Seed: *seed, Tier: *tier}
 	f, ok := lab.Checks[*id]
 	if !ok {
